@@ -58,16 +58,49 @@ META.update({
                 note=TB),
 })
 
+META.update({
+    "C02": dict(technique="Lean 4 proof (backend-independent validator soundness) + translation validation of the C text + compiled differential run",
+                text="Partial. The C function bodies are translated (C expression parser) into the same IR and pushed through the proven-sound validators checkRhs / checkMonitor / "
+                     "checkScheme; the code is compiled with gcc (default mode, -Wall), index functions, NUM_* constants, init functions, rhs, monitor_values and three schemes are "
+                     "called through ctypes and compared with the reference meaning; out-of-bounds writes and input modification are detected with guard slots. A disagreement is "
+                     "classified by re-evaluating the translated C body at 50 digits under C typing, with integers promoted, and with floored fmod.",
+                note=TB + "No Lean theorem about C's integer/double typing yet (cNoIntArith is planned): the typing part is decided by the 50-digit C-semantics evaluator in the harness, "
+                          "not by proof. Two genuine defects are recorded as known findings (integer arithmetic on integer literals; fmod sign)."),
+    "C03": dict(technique="Lean 4 proof (return-array assembly + backend-independent validator soundness) + translation validation + differential run (jitted and un-jitted)",
+                text="Theorems jaxReturn_sound / arity_mismatch (the returned array has the documented length and entry i is the value stored in slot i iff the return list is range(n)), "
+                     "num_return_values_extracted (each method passes the length of the array it fills), and the shared validator soundness. Every JAX function the NumPy backend offers is "
+                     "validated, its return list checked against the documented length, and run with and without jit against the reference meaning; models with more than 10 outputs included.",
+                note=TB + "XLA compilation is assumption A2."),
+    "C11": dict(technique="Lean 4 proof (writer alphabet inside the grammar, extracted tables) + differential save/load round trips",
+                text="Partial. Theorems writer_relations_in_grammar / writer_connectives_in_grammar and pins relop_table, writer_overrides: every name the writer can emit is accepted by the "
+                     "grammar the Lean parser implements. The print/parse round-trip theorem is not proved; instead every saved file is re-read by the real loader and by the Lean parser, "
+                     "and atoms, units, descriptions, defaults, component membership and the values of rhs / monitors / schemes are compared (against the reference meaning too).",
+                note=TB + "Myokit/CellML-imported models are covered by the C15 check."),
+    "C13": dict(technique="Lean 4 proof (missing variables exact, gluing of solutions, missing_values soundness) + differential three-module run",
+                text="Theorems missing_exact (missing variables = names mentioned and not defined, sorted), split_glue (a solution of the full model is a solution of every restriction fed "
+                     "with its values for states, parameters and missing variables), states_partition, missing_values_sound, pin c_missing_index_name. Real code: every component as the split, "
+                     "missing variables compared with the model's, sub / rest modules fed from the full model, monitors / rhs / Euler / missing_values compared by name.",
+                note=TB),
+    "C14": dict(technique="Lean 4 proof (batch evaluation is pointwise for array-safe expressions) + translation-time arraySafe check + differential batch runs",
+                text="Theorems evalVec_pointwise (column j of the batch value is the scalar value on column j, any number of columns, any interpretation), no_source_construct_scalarOnly, "
+                     "scalarOnly_fails / scalarOnly_single. The translator reports Python-level not/and/or/if-expressions/chained comparisons in any generated function (arraySafe); "
+                     "every function is called on (n, N) batches with shared and per-column parameters, columns on different sides of conditions, and compared column by column.",
+                note=TB + "NumPy's SIMD loops may differ from the scalar path in the last bits; 1e-9 relative is allowed."),
+    "C16": dict(technique="Lean 4 proof (nested-conditional combinator is correct for any number of singularities; as-coded combinator for at most one) + differential run",
+                text="Theorems nested_regular / nested_at_singular (what the property asks for, any number of singularities), asCoded_le_one (the combinator as coded equals it for <= 1) and "
+                     "asCoded_two_doubles (float64 witness that the sum-of-conditionals doubles the value for two). Real code: families with 0-3 removable singularities in one or two states, "
+                     "regular points vs the original and the text's meaning, singular points vs the two-sided limit at 50 digits.",
+                note=TB + "sympy's singularities() and limit() are oracles (A4). The doubling for >= 2 singularities is a known finding (the unedited test-suite pins that output)."),
+    "C20": dict(technique="Lean 4 proof (substitution preserves values; loop result has no intermediates) + differential symbolic evaluation",
+                text="Theorems eval_subst and rhsMatrixLoop_sound: whatever number of rounds, a returned right-hand side has one entry per derivative, mentions no intermediate and has the "
+                     "derivative's value at every solution; states_order; pin max_tries_shape (bound = #intermediates + 1, raise only if intermediates remain). Real code: rhs_matrix / "
+                     "jacobi_matrix evaluated at 40 digits against the reference, against the Lean expansion and symbolic derivative, and against 50-digit central differences; depths 4-60.",
+                note=TB + "Totality (the default bound always suffices for acyclic models) is checked on chains, not yet proved in general."),
+})
+
 NOT_APPLICABLE = {
-    "C02": "check not built yet in this session (C backend); planned, see DESIGN.md section 7",
-    "C03": "check not built yet in this session (JAX backend); planned",
-    "C11": "check not built yet in this session; planned",
-    "C13": "check not built yet in this session; planned",
-    "C14": "check not built yet in this session; planned",
     "C15": "check not built yet in this session; planned",
-    "C16": "check not built yet in this session; planned",
     "C17": "check not built yet in this session; planned",
     "C18": "check not built yet in this session; planned",
     "C19": "check not built yet in this session; planned",
-    "C20": "check not built yet in this session; planned",
 }
